@@ -124,7 +124,14 @@ class WriterTranslator:
                 except SyntaxError:
                     var = inner[0]
                 return ("not", ("interval", var, inner[1], inner[2]))
-        return ("truthy", self._canon(t2, fi))
+        try:
+            return ("truthy", self._canon(t2, fi))
+        except Unsupported:
+            if isinstance(t2, (ast.Compare, ast.BoolOp)):
+                # a condition the format does not know: kept as an opaque guard (the encoding then differs from the reference
+                # wherever the two arms differ -- reported as a deviation, not as an unreadable construct)
+                return ("cond", norm(t2))
+            raise
 
     # -- statements
     def block(self, stmts: list[ast.stmt], fi: FuncInfo, env: dict[str, ast.AST], depth: int) -> list:
